@@ -388,13 +388,16 @@ class WBEMSubscriptionManager:
         this_client = getfqdn()
 
         # Recover owned destination, filter, and subscription instances
-        # that exist on the WBEMServer
+        # that exist on the WBEMServer.
+        # The subscription manager ID and the client host name are matched
+        # literally, so they are escaped for use in the regexp patterns.
+        submgr_id_re = re.escape(self._subscription_manager_id)
+        this_client_re = re.escape(this_client)
         dest_name_pattern = re.compile(
-            _format(r'^pywbemdestination:{0}:[^:]*$',
-                    self._subscription_manager_id))
+            _format(r'^pywbemdestination:{0}:[^:]*$', submgr_id_re))
         dest_name_old_pattern = re.compile(
             _format(r'^pywbemdestination:owned:{0}:{1}:[^:]*$',
-                    this_client, self._subscription_manager_id))
+                    this_client_re, submgr_id_re))
 
         dest_insts = server.conn.EnumerateInstances(
             DESTINATION_CLASSNAME, namespace=interop_ns)
@@ -412,11 +415,10 @@ class WBEMSubscriptionManager:
                     OldNameDestinationWarning, 2)
 
         filter_name_pattern = re.compile(
-            _format(r'^pywbemfilter:{0}:[^:]*$',
-                    self._subscription_manager_id))
+            _format(r'^pywbemfilter:{0}:[^:]*$', submgr_id_re))
         filter_name_old_pattern = re.compile(  # before pywbem 1.3
             _format(r'^pywbemfilter:owned:{0}:{1}:[^:]*:[^:]*$',
-                    this_client, self._subscription_manager_id))
+                    this_client_re, submgr_id_re))
 
         filter_insts = server.conn.EnumerateInstances(
             FILTER_CLASSNAME, namespace=interop_ns)
